@@ -52,6 +52,22 @@ def generate(rng, tier):
     # the same short names defined in several modules, used by fields, functions and extern values of one of them
     from .c11 import gen_case
     cases += [gen_case(rng, 'clash%d' % i) for i in range(n // 3)]
+    # items of one module whose names differ only by letter case: their order in the emitted file is part of the output
+    from .c14 import add_case_twin
+    o3_ = gen.Opts(max_modules=2, max_items=3, p_vftable=0.2, p_base=0.3, p_impl=0.2, p_enum=0.3, max_fields=2, p_backend=0.0, shuffle_prio=False)
+    for i in range(n // 3):
+        cases.append(add_case_twin(rng, gen.world(rng, 'tw%d' % i, opts=o3_)))
+    # a type whose full path is also the path of a module (ui.pyxis defines `Widget`, ui/Widget.pyxis is module ui::Widget): accepted,
+    # and whatever is decided about it must not depend on which of the two files was added first
+    for i in range(max(4, n // 10)):
+        w = rng.choice(['Widget', 'W', 'Node'])
+        par = modent(path('ui%d' % i), module(defs=[type_def(True, w, [], [field(True, 'x', ty_id('u32'))])]
+                                               + ([type_def(True, 'Other', [], [field(True, 'p', ty_cptr(ty_id(w)))])] if i % 2 else [])))
+        nest = modent(path('ui%d' % i, w), module(defs=[type_def(True, 'Inner', [], [field(True, 'y', ty_id('u64'))])]))
+        app = modent(path('app%d' % i), module(uses=[path('ui%d' % i, w)], defs=[type_def(True, 'App', [], [field(True, 'w', ty_id(w))])]))
+        ents = [par, nest, app] if i % 3 else [par, nest]
+        rng.shuffle(ents)
+        cases.append(case('modtype%d' % i, rng.choice([4, 8]), ents))
     for c in cases:
         c.append([S('vseed'), rng.randrange(1 << 30)])
     return cases
@@ -116,6 +132,24 @@ def generated_shadows_import(c):
         for u in us:
             if tuple(u) in gen and any(v != u and v[-1:] == u[-1:] for v in us):
                 return True
+    return False
+
+def generated_shadows_used_module(c):
+    """a module M defines `T` with a vftable block (so M::TVftable is generated during the run) and also reaches another item called
+    `TVftable` through one of its `use`s (a used module that defines it, or an import by name): until T has been attempted the
+    name denotes the other item, afterwards the module's own generated one"""
+    defined = set()
+    for (mp, file, m) in modules_of(c):
+        for d in m_defs(m):
+            defined.add(tuple(mp + [def_name(d)]))
+    for (mp, file, m) in modules_of(c):
+        for d in m_defs(m):
+            if def_is_type(d) and any(tag(s_) == 'vftable' for s_ in type_stmts(d)):
+                nm = def_name(d) + 'Vftable'
+                for u in m_uses(m):
+                    u = list(u)
+                    if tuple(u + [nm]) in defined or (u[-1:] == [nm] and tuple(u) in defined and u[:-1] != mp):
+                        return True
     return False
 
 def mentions_generated_in_signature(c):
@@ -208,6 +242,8 @@ def judge_all(cases, impl, model, tier):
                 reason += '/generated-vftable-in-signature'
             elif generated_shadows_import(c):
                 reason += '/generated-vftable-shadows-import'
+            elif generated_shadows_used_module(c):
+                reason += '/generated-vftable-shadows-used-module'
             elif user_type_named_like_generated(c):
                 reason += '/user-type-equal-to-generated-vftable'
             detail = '; '.join('%s: %s' % ('fail' if k == 'fail' else 'output#%d' % i, ','.join(v[:4])) for i, (k, v) in enumerate(sigs.items()))
